@@ -378,10 +378,19 @@ func structural(F *Facts, nodeP, pegP, srvP, cmdP map[string]*ast.File) {
 						if s == "LastAverages" || s == "LastAveragesData" || s == "LastAveragesHeight" || s == "Synced" {
 							F.SharedState = append(F.SharedState, site(fn, fd.Name.Name, x, pkg+":"+s))
 						}
+						if pkg != "node" && (s == "avgNode" || s == "avgMu") {
+							F.SharedState = append(F.SharedState, site(fn, fd.Name.Name, x, pkg+":private:"+src(x)))
+						}
+					case *ast.CompositeLit:
+						if pkg != "node" && strings.HasSuffix(src(x.Type), "Pegnetd") {
+							F.SharedState = append(F.SharedState, site(fn, fd.Name.Name, x, pkg+":new:"+src(x)))
+						}
 					case *ast.CallExpr:
 						c := calleeName(x)
 						if pkg != "node" && (c == "GetPegNetRateAverages" || c == "GetCurrentSync") {
-							F.SharedState = append(F.SharedState, site(fn, fd.Name.Name, x, pkg+":call:"+c))
+							// the receiver is part of the fact: the API may use the averaging
+							// function only on its own private node value, never on the shared one
+							F.SharedState = append(F.SharedState, site(fn, fd.Name.Name, x, pkg+":call:"+src(x.Fun)))
 						}
 					case *ast.GoStmt:
 						what := src(x.Call.Fun)
